@@ -226,7 +226,7 @@ class Shapes:
         allowed, entry, rk = self.reaching(fn, ident, at)
         k = (fn.qualname, ident, rk)
         if k in self._name:
-            return self._name[k]
+            return self._refine(fn, ident, at, self._name[k])
         if k in self._busy:
             return NEUTRAL
         self._busy.add(k)
@@ -235,7 +235,25 @@ class Shapes:
         finally:
             self._busy.discard(k)
         self._name[k] = out
-        return out
+        return self._refine(fn, ident, at, out)
+
+    def _refine(self, fn: FunctionInfo, ident: str, at: ast.AST | None, shape: Shape | None) -> Shape | None:
+        """Raise the minimum length by what a dominating test says (`if not x: return`), for names bound exactly once in the function."""
+        from sa.util import cfg_of, node_index
+
+        if at is None or shape is None:
+            return shape
+        stores = sum(1 for n in ast.walk(fn.node) if isinstance(n, ast.Name) and n.id == ident and isinstance(n.ctx, ast.Store))
+        a = fn.node.args
+        stores += ident in [x.arg for x in (*a.posonlyargs, *a.args, *a.kwonlyargs)]
+        if stores != 1:
+            return shape
+        nodes = node_index(fn).get(id(at), [])
+        if not nodes:
+            return shape
+        cfg = cfg_of(fn)
+        lo = min(guard_len(cfg.facts_on_all_paths(cn), ident) for cn in nodes)
+        return Shape(lo, shape.elem, shape.fields) if lo > shape.minlen else shape
 
     def _target_shapes(self, fn: FunctionInfo, target: ast.AST, value: Shape | None, ident: str) -> list[Shape | None]:
         """Shapes bound to `ident` when `target` receives a value of shape `value`."""
